@@ -97,8 +97,8 @@ HARNESSES = [
           bounds="closed-form oracle; real lib/lh5_decoder.c (16 KiB ring): as closed.lh5 with copy length 3..16"),
     cmd_h("closed.lk7", ["REAL_LK7", "LENMAX=16"], 16, flags=["--arrays-uf-always"], tier="thorough", timeout=1800, mem_gb=6,
           bounds="closed-form oracle; real lib/lk7_decoder.c (64 KiB ring): arbitrary ring, symbolic position, distance codes 0..31, copy length 3..16"),
-    cmd_h("closed.lh7", ["REAL_LH7", "LENMAX=16"], 16, flags=["--arrays-uf-always"], tier="thorough", timeout=1800, mem_gb=6,
-          bounds="closed-form oracle; real lib/lh7_decoder.c (128 KiB ring): arbitrary ring, symbolic position, offset symbol 0..17, copy length 3..16"),
+    cmd_h("closed.lh6", ["REAL_LH6", "LENMAX=16"], 16, flags=["--arrays-uf-always"], tier="thorough", timeout=1800, mem_gb=6,
+          bounds="closed-form oracle; real lib/lh6_decoder.c (64 KiB ring): arbitrary ring, symbolic position, offset symbol 0..16, copy length 3..16"),
     cmd_h("step.hb4", ["HB=4", "OB=3", "LENMAX=128"], 128, step=True, timeout=300,
           bounds="byte-at-a-time oracle; template at HISTORY_BITS 4: window, position, code (literal / every length 3..128), offset symbol 0..4, extra bits all symbolic; ring wraps up to 8 times"),
     cmd_h("step.hb4.full", ["HB=4", "OB=3"], 256, step=True, timeout=1200, tier="thorough",
@@ -196,6 +196,6 @@ HARNESSES = [
         ("p3", ["LENMAX=8", "C2V=261", "P2V=3"], "2 literals 'A'; copy length 8, offset symbol 3: distances 4..7 (overlapping copies)", "both"),
         ("p1", ["LENMAX=8", "C2V=258", "P2V=1", "C1V=0"], "2 literals 0x00; copy length 5, offset symbol 1: distance 1", "thorough"),
         ("p0", ["LENMAX=8", "C2V=256", "P2V=0", "C1V=255"], "2 literals 0xff; copy length 3, offset symbol 0: distance 0", "thorough"),
-        ("p13.l256", ["LENMAX=256", "C2V=509", "P2V=13"], "2 literals 'A'; copy length 256, offset symbol 13: distances 4096..8191", "thorough"),
+        ("p13.l32", ["LENMAX=32", "C2V=285", "P2V=13"], "2 literals 'A'; copy length 32, offset symbol 13: distances 4096..8191", "thorough"),
     ]
 ]
